@@ -18,6 +18,7 @@ import (
 	"os/exec"
 	"path/filepath"
 	"runtime/debug"
+	"strconv"
 	"strings"
 	"sync"
 	"time"
@@ -73,8 +74,22 @@ type c10Res struct {
 	Ms     int64  `json:"ms,omitempty"`     // wall time of the job (evidence only)
 }
 
+// c10Deadline: first-pass deadline per job.  Expiry is only a SUSPICION (the machine may be
+// overloaded): the parent re-runs the job alone in a fresh child with c10ConfirmDeadline, and
+// only a second expiry is the observation "hang".  Likewise a child that dies is re-run once: a
+// crash of the code under test repeats, a child killed from outside does not.
 const c10Deadline = 12 * time.Second
+const c10ConfirmDeadline = 75 * time.Second
 const c10MaxHangs = 3
+
+func c10JobDeadline() time.Duration {
+	if v := os.Getenv("C10_DEADLINE_S"); v != "" {
+		if n, err := strconv.Atoi(v); err == nil && n > 0 {
+			return time.Duration(n) * time.Second
+		}
+	}
+	return c10Deadline
+}
 
 // c10Sites extracts the first non-runtime frame and the first itchio/wharf frame of a Go stack
 // dump (frames before the innermost "panic(" line are ignored): "pkg.func @ file.go:line".
@@ -132,8 +147,8 @@ func c10Sites(stack string) (top, wharf string) {
 func c10Run(f func(r *c10Res) error) *c10Res {
 	type done struct{ r *c10Res }
 	ch := make(chan done, 1)
+	r := &c10Res{}
 	go func() {
-		r := &c10Res{}
 		defer func() {
 			if p := recover(); p != nil {
 				r.Class = "panic"
@@ -157,8 +172,9 @@ func c10Run(f func(r *c10Res) error) *c10Res {
 	select {
 	case d := <-ch:
 		return d.r
-	case <-time.After(c10Deadline):
-		return &c10Res{Class: "hang", Msg: fmt.Sprintf("no return within %s", c10Deadline)}
+	case <-time.After(c10JobDeadline()):
+		// (r.Stage is read while the stuck goroutine may still own r: it only ever holds a constant)
+		return &c10Res{Class: "hang", Stage: r.Stage, Msg: fmt.Sprintf("no return within %s", c10JobDeadline())}
 	}
 }
 
@@ -374,6 +390,12 @@ func runC10Child(c *Ctx) error {
 			t0 := time.Now()
 			res := c10Feed(&j, c.Tmp)
 			res.Ms = time.Since(t0).Milliseconds()
+			if os.Getenv("C10_ONLY_ONE") != "" {
+				b, _ := json.Marshal(res)
+				outf.Write(append(b, '\n'))
+				outf.Close()
+				os.Exit(0)
+			}
 			b, _ := json.Marshal(res)
 			outf.Write(append(b, '\n'))
 			if res.Class == "hang" {
@@ -425,6 +447,61 @@ func c10RunJobs(c *Ctx, jobs []*c10Job) ([]*c10Res, error) {
 		out = append(out, p.res...)
 	}
 	return out, nil
+}
+
+// c10Confirm runs job idx of jobFile alone in a fresh child with the long deadline (up to three
+// attempts when the child disappears without any output, i.e. was killed from outside).
+func c10Confirm(jobFile string, idx int, dir string) (*c10Res, error) {
+	scratch := filepath.Join(dir, "confirm")
+	resFile := scratch + ".res"
+	var last *c10Res
+	for attempt := 0; attempt < 3; attempt++ {
+		os.RemoveAll(scratch)
+		os.Remove(resFile)
+		if err := os.MkdirAll(scratch, 0o755); err != nil {
+			return nil, err
+		}
+		cmd := exec.Command(os.Args[0], "C10child", "-replay", jobFile, "-out", os.DevNull, "-seed", fmt.Sprint(idx), "-tmp", scratch)
+		cmd.Env = append(os.Environ(), fmt.Sprintf("C10_DEADLINE_S=%d", int(c10ConfirmDeadline/time.Second)), "C10_ONLY_ONE=1")
+		var stderr bytes.Buffer
+		cmd.Stderr = &stderr
+		cmd.Stdout = io.Discard
+		if err := cmd.Start(); err != nil {
+			return nil, err
+		}
+		waitCh := make(chan error, 1)
+		go func() { waitCh <- cmd.Wait() }()
+		killed := false
+		select {
+		case <-waitCh:
+		case <-time.After(c10ConfirmDeadline + 30*time.Second):
+			cmd.Process.Kill()
+			killed = true
+			<-waitCh
+		}
+		b, _ := os.ReadFile(resFile)
+		os.RemoveAll(scratch)
+		os.Remove(resFile)
+		if line := bytes.TrimSpace(bytes.SplitN(b, []byte("\n"), 2)[0]); len(line) > 0 {
+			r := &c10Res{}
+			if err := json.Unmarshal(line, r); err == nil {
+				return r, nil
+			}
+		}
+		if killed {
+			return &c10Res{Class: "hang", Stage: "child", Msg: "child made no progress (confirmed alone) and was killed"}, nil
+		}
+		st := stderr.String()
+		if strings.Contains(st, "panic:") || strings.Contains(st, "fatal error:") || strings.Contains(st, "[running]") {
+			r := &c10Res{Class: "panic", Stage: "child", Msg: firstLine(st)}
+			if i := strings.Index(st, "[running]"); i >= 0 {
+				r.Top, r.Wharf = c10Sites("panic(\n" + st[i:])
+			}
+			return r, nil
+		}
+		last = &c10Res{Class: "panic", Stage: "child-vanished", Msg: fmt.Sprintf("child exited without output (%v)", cmd.ProcessState)}
+	}
+	return last, nil
 }
 
 // c10RunShard runs a contiguous slice of the jobs in one child at a time; shard k uses the work
@@ -537,26 +614,25 @@ func c10RunShard(c *Ctx, jobs []*c10Job, shard int) ([]*c10Res, error) {
 		if len(results) >= len(jobs) {
 			break
 		}
-		last := (*c10Res)(nil)
-		if len(results) > 0 {
-			last = results[len(results)-1]
+		// job len(results) (or the last one, if the child reported a deadline expiry itself) did not
+		// end normally: suspicion only, settled by running that job alone with a long deadline
+		idx := len(results)
+		if n := len(results); n > before && results[n-1].Class == "hang" {
+			idx = n - 1
+			results = results[:idx]
 		}
-		if last != nil && last.Class == "hang" && len(results) > before {
-			// the child reported the hang itself and left
-		} else if killed {
-			results = append(results, &c10Res{Class: "hang", Stage: "child", Msg: "child made no progress and was killed"})
-		} else {
-			// the child died while running job len(results): a panic outside the guarded goroutine
-			st := stderr.String()
-			r := &c10Res{Class: "panic", Stage: "child", Msg: firstLine(st)}
-			if i := strings.Index(st, "[running]"); i >= 0 {
-				r.Top, r.Wharf = c10Sites("panic(\n" + st[i:])
-			}
-			if r.Msg == "" {
-				r.Msg = fmt.Sprintf("child exited without output (%v)", cmd.ProcessState)
-			}
-			results = append(results, r)
+		first := &c10Res{Class: "panic", Stage: "child", Msg: firstLine(stderr.String())}
+		if killed {
+			first = &c10Res{Class: "hang", Stage: "child", Msg: "child made no progress and was killed"}
 		}
+		conf, err := c10Confirm(jobFile, idx, dir)
+		if err != nil {
+			return nil, err
+		}
+		if conf.Stage == "child-vanished" {
+			conf = first // died twice without a trace
+		}
+		results = append(results, conf)
 		if err := rewrite(); err != nil {
 			return nil, err
 		}
